@@ -18,6 +18,8 @@ MAIN = {
     "forrange": "for i := range 2000000000 { tick(0) }",
     "forcond": "x := 1\nfor x > 0 { tick(0) }",
     "recursion": "func r(n) { tick(0)\n if n > 0 { r(n - 1) } }\nfor { r(200) }",
+    # a binary call tree of depth 62: practically endless, and not one backward jump is ever executed
+    "calltree": "func ct(n) { tick(0)\n if n > 0 { ct(n - 1)\n ct(n - 1) } }\nct(62)",
     "mapcb": "for { [1, 2, 3].map(func(x) { tick(0)\n x }) }",
     "eachcb": "[1].each(func(x) { for { tick(0) } })",
     "filtercb": "[1, 2].filter(func(x) { for { tick(0) } })",
@@ -37,7 +39,8 @@ MAIN = {
     "wait": "tick(0)\ntick(0)\ntick(0)\nt := spawn(func() { for { tick(7) } })\nt.wait()\nfor { tick(0) }",
 }
 BODY = {"loop": "for { tick(%d) }", "sleepy": "for { tick(%d)\n time.sleep(0.002) }", "recv": "tick(%d)\ncq := chan()\nvq := <-cq",
-        "sendfull": "tick(%d)\ncq := chan(1)\ncq <- 1\ncq <- 2", "sendthenloop": "cq := chan(1)\ncq <- 1\nfor { tick(%d) }"}
+        "sendfull": "tick(%d)\ncq := chan(1)\ncq <- 1\ncq <- 2", "sendthenloop": "cq := chan(1)\ncq <- 1\nfor { tick(%d) }",
+        "calltree": "func cq(n) { tick(%d)\n if n > 0 { cq(n - 1)\n cq(n - 1) } }\ncq(62)"}
 
 
 def script(s):
@@ -181,8 +184,8 @@ def run(cx):
         "evaluations": nrun, "distinct_nontrivial": len([1 for r_ in rows if r_["scen"]["tree"]["depth"] > 0 or r_["scen"]["main"] not in ("for", "for3")]),
         "traces_validated_against_impl": nrun, "scenarios": len(rows), "max_spawn_depth": maxd, "exhaustive": True,
         "prompt_return_bound_ms": bound,
-        "rule": "VMRunScen: 22 main forms (loops, recursion, callbacks in list.map/each/filter/sorted/try/try-handler/defer, blocked send / receive (statement and method forms, unbuffered and full buffered) / channel "
-                "iteration / sleep / thread wait) x spawn trees (depth 0..D, 3 spawn forms, 5 goroutine bodies) x cancellation instants "
+        "rule": "VMRunScen: 23 main forms (loops, recursion with and without a loop around it, callbacks in list.map/each/filter/sorted/try/try-handler/defer, blocked send / receive (statement and method forms, unbuffered and full buffered) / channel "
+                "iteration / sleep / thread wait) x spawn trees (depth 0..D, 3 spawn forms, 6 goroutine bodies) x cancellation instants "
                 "(deadline, 3rd tick, 40th tick), all enumerated by TLC; non-trivial = scenario with a spawned goroutine or a non-plain-loop main",
     })
     cx.assumptions += ["promptness bound is generous (3 s) and a timing observation counts only when reproduced in 2 of 3 isolated re-runs",
